@@ -251,6 +251,23 @@ bool Hist::opReadModifyWrite() {
     return true;
 }
 
+// A frame OF THE OBJECT ITSELF handed to frame() by reference (append, replace another index, extend): valid use, the reference must not dangle.
+bool Hist::opSelfFrame() {
+    size_t n = prev.frames.size(); if (n == 0) return false;
+    size_t i = rng.below(n); if (prev.frames[i].empty() && !wild) return false;
+    int how = rng.range(0, 2); size_t idxArg = SIZE_MAX, target = n;
+    if (how == 1) { idxArg = rng.below(n); target = idxArg; } else if (how == 2) { idxArg = n + (size_t)rng.range(0, 40); target = idxArg; }
+    if (!wild && how == 2 && idxArg > n && rng.chance(60)) { idxArg = n; target = n; }
+    SFrame want = prev.frames[i];
+    std::string opn = how == 0 ? "self_frame_append" : how == 1 ? "self_frame_replace" : "self_frame_extend";
+    log.pre("frame", opn); Outcome oc; VF_TRY(oc, obj->frame(obj->data().frame(i), idxArg));
+    log.ev(opn, "from=" + std::to_string((unsigned long long)i) + " idx=" + (idxArg == SIZE_MAX ? std::string("append") : std::to_string((unsigned long long)idxArg)) + " n=" + std::to_string((unsigned long long)n), oc); bump("op:" + opn);
+    checkC07Frame(opn, want, oc);
+    if (!oc.threw && !wild) { Snap cur = take(*obj); checkFrameRelation(opn, cur, target, how == 0, want, idxArg); }
+    afterMutator(opn, oc);
+    return true;
+}
+
 bool Hist::opDeclarePoint() {
     std::vector<std::string> labels = labelsOf(prev, "POINT");
     size_t n = prev.frames.size();
